@@ -162,10 +162,14 @@ class GaussianMixture:
             means[k] = X[np.searchsorted(cumsum, r)]
 
         # Initialize responsibilities and compute initial parameters
-        responsibilities = np.zeros((n_samples, self.n_components))
+        log_resp = np.zeros((n_samples, self.n_components))
         for k in range(self.n_components):
             distances = np.sum((X - means[k]) ** 2, axis=1)
-            responsibilities[:, k] = np.exp(-0.5 * distances)
+            log_resp[:, k] = -0.5 * distances
+        # shift by the row maximum before exponentiating: a point far from every
+        # centre would otherwise underflow to an all-zero row and 0/0 = NaN
+        log_resp -= np.max(log_resp, axis=1, keepdims=True)
+        responsibilities = np.exp(log_resp)
         responsibilities /= np.sum(responsibilities, axis=1, keepdims=True)
 
         # Compute initial weights and covariances
